@@ -72,3 +72,41 @@ pub fn codec(lib: &str, dir: &str, hex: &str) -> String {
         _ => "bad-op".into(),
     }
 }
+
+macro_rules! world_decode {
+    ($exp:ident, $dir:expr, $bytes:expr) => {{
+        let mut cur = Cursor::new($bytes);
+        if $dir == "client" {
+            match wow_world_messages::$exp::opcodes::ClientOpcodeMessage::read_unencrypted(&mut cur) {
+                Ok(_) => "ok".to_string(),
+                Err(wow_world_messages::errors::ExpectedOpcodeError::Opcode { opcode, .. }) => format!("err opcode {opcode}"),
+                Err(e) => parse_kind(&format!("{e:?}")),
+            }
+        } else {
+            match wow_world_messages::$exp::opcodes::ServerOpcodeMessage::read_unencrypted(&mut cur) {
+                Ok(_) => "ok".to_string(),
+                Err(wow_world_messages::errors::ExpectedOpcodeError::Opcode { opcode, .. }) => format!("err opcode {opcode}"),
+                Err(e) => parse_kind(&format!("{e:?}")),
+            }
+        }
+    }};
+}
+
+/// decode only (C03): `ok` | `err <kind>`; panics are caught by the caller
+pub fn decode_only(lib: &str, dir: &str, bytes: &[u8]) -> String {
+    match lib {
+        "vanilla" => world_decode!(vanilla, dir, bytes),
+        "tbc" => world_decode!(tbc, dir, bytes),
+        "wrath" => world_decode!(wrath, dir, bytes),
+        l if l.starts_with("login") => {
+            let v: u32 = l[5..].parse().unwrap_or(0);
+            match crate::gen_login::login_codec(v, dir, bytes) {
+                Some(Ok(_)) => "ok".into(),
+                Some(Err(wow_login_messages::errors::ExpectedOpcodeError::Opcode(o))) => format!("err opcode {o}"),
+                Some(Err(e)) => parse_kind(&format!("{e:?}")),
+                None => "bad-op".into(),
+            }
+        }
+        _ => "bad-op".into(),
+    }
+}
